@@ -330,7 +330,7 @@ impl<'a> RtcpPacketWriter for SdesBuilder<'a> {
             chunks_size += chunk.calculate_size()?;
         }
 
-        Ok(Sdes::MIN_PACKET_LEN + chunks_size + self.padding as usize)
+        writer::check_packet_len(Sdes::MIN_PACKET_LEN + chunks_size + self.padding as usize)
     }
 
     /// Writes this Sdes packet chunks into `buf` without any validity checks.
